@@ -110,6 +110,8 @@ def build(f, d, E):
 def eval_batch(f, d, E, layout="site"):
     """returns list of (idx, stat, clause, predicate, msg)"""
     common.load_wavespectra()
+    if layout == "fdesc":
+        return eval_fdesc(f, d, E)
     f = np.asarray(f, dtype=float)
     f32 = f.astype(np.float32).astype(float)
     nf = len(f)
@@ -267,6 +269,30 @@ def eval_batch(f, d, E, layout="site"):
     return bad
 
 
+def eval_fdesc(f, d, E):
+    """The same spectra with the frequency axis STORED in descending order: the peak statistics that do not depend on the
+    integration order (tp both kinds, fp, dpm, dpspr, dp) must equal those of the ascending storage."""
+    asc = build(f, d, E)
+    desc = asc.isel(freq=slice(None, None, -1))
+    bad = []
+    N = E.shape[0]
+    calls = [("tp", lambda s: s.tp(smooth=False)), ("tp(smooth)", lambda s: s.tp(smooth=True)), ("fp(smooth)", lambda s: s.fp(smooth=True))]
+    if d is not None:
+        calls += [("dpm", lambda s: s.dpm()), ("dpspr", lambda s: s.dpspr()), ("dp", lambda s: s.dp())]
+    for name, fn in calls:
+        try:
+            a = np.asarray(fn(asc.spec).values, dtype=float).reshape(N)
+            b = np.asarray(fn(desc.spec).values, dtype=float).reshape(N)
+        except Exception as e:  # noqa
+            bad.append((-1, name, "raises-" + type(e).__name__, "freq-stored-descending", "%s raised %r" % (name, e)))
+            continue
+        ok = (np.abs(a - b) <= 2e-6 * np.abs(a) + 1e-30) | (np.isnan(a) & np.isnan(b))
+        if not ok.all():
+            i = int(np.argwhere(~ok)[0][0])
+            bad.append((i, name, "same-with-descending-frequency-storage", "freq-stored-descending", "%s: ascending storage %r, descending storage %r" % (name, float(a[i]), float(b[i]))))
+    return bad
+
+
 def isolate_exception(f, d, E, stat):
     """binary search for one spectrum on which `stat` raises"""
     lo, hi = 0, E.shape[0]
@@ -285,8 +311,8 @@ def replay(case):
     d = None if case.get("d") is None else np.asarray(case["d"], dtype=float)
     E = np.asarray(case["efth"], dtype=float)[None]
     out = []
-    for (b, stat, clause, pred, msg) in eval_batch(f, d, E):
-        if clause.startswith("raises"):
+    for (b, stat, clause, pred, msg) in eval_batch(f, d, E, case.get("layout", "site") if case.get("layout") == "fdesc" else "site"):
+        if clause.startswith("raises") and case.get("layout") != "fdesc":
             pred = exc_pred(f, d, E[0])
         out.append(Violation(PROP, "%s|%s|%s" % (stat, clause, pred), msg, dict(case, stat=stat)))
     return out
@@ -307,7 +333,7 @@ def run_item(it):
     f, d = it["f"], it["d"]
     nf = len(f)
     orders = it["orders"]
-    S = np.array([realise(o, it["spacing"]) for o in orders])
+    S = np.array([realise(o, it["spacing"]) for o in orders]) * it.get("scale", 1.0)
     res = {"evals": 0, "n_nontrivial": 0, "samples": [], "outcomes": {}, "violations": [], "parts": {}}
     if d is None:
         E = S
@@ -328,20 +354,22 @@ def run_item(it):
             if any(o[i - 1] < o[i] > o[i + 1] for i in range(1, nf - 1)):
                 res["n_nontrivial"] += 1
         for (b, stat, clause, pred, msg) in bad:
-            if b == -1:
+            if b == -1 and it.get("layout") == "fdesc":
+                b = 0
+            elif b == -1:
                 b = isolate_exception(f, d, Eb, stat)
                 pred = exc_pred(f, d, Eb[b])
             sig = "%s|%s|%s" % (stat, clause, pred)
             if sig in seen:
                 continue
             seen.add(sig)
-            case = dict(f=f, d=d, efth=Eb[b], stat=stat)
+            case = dict(f=f, d=d, efth=Eb[b], stat=stat, layout=it.get("layout", "site"))
             vs = [v for v in replay(case) if v.signature == sig]
             if vs:
                 res["violations"].append(vs[0])
             else:
                 res["violations"].append(Violation(PROP, sig + "|batched-only", "seen only inside a batch: " + msg, case))
-    key = "2d" if d is not None else "1d"
+    key = ("2d" if d is not None else "1d") + ("-fdesc" if it.get("layout") == "fdesc" else "") + ("-scaled" if it.get("scale") else "")
     res["parts"]["%s_nf%d" % (key, nf)] = res["evals"]
     res["samples"].append(dict(freq=f, dir=d, ranks=list(orders[len(orders) // 2]), spacing=it["spacing"], shift=it.get("shift")))
     return res
@@ -382,6 +410,15 @@ def run(rep, tier, seed, parts=None):
                     sp = ("lin", "geo", "off", "eps")[sh % 4] if nf <= 5 else ("lin", "geo", "off")[sh % 3]
                     items.append(dict(f=f, d=d, orders=orders, spacing=sp, shift=sh, fam=fname,
                                       layout="time_site" if sh == 1 else "site"))
+    # extreme energy scales (a frequency axis stored in descending order is NOT enumerated: the accessor does not support it on the
+    # unchanged tree either - hs is NaN and dpspr is wrong there - so it is outside the stated domain)
+    for nf in (4, 5):
+        orders = gen.weak_orderings(nf)
+        fname, f = freq_fams(nf, seed)[0]
+        dd = 90.0
+        for scale in (1e-12, 1e10):
+            items.append(dict(f=f, d=[0.0, 5.0, 7.5][seed % 3] + dd * np.arange(4), orders=orders, spacing="off", shift=2, fam=fname, scale=scale))
+            items.append(dict(f=f, d=None, orders=orders, spacing="lin", fam=fname, scale=scale))
     items.sort(key=lambda it: (len(it["f"]), 0 if it["d"] is None else len(it["d"])))
     for res in common.pmap(run_item, items):
         rep.merge(res)
